@@ -13,7 +13,11 @@ def cmd_import(prop):
     src = "/tmp/seed_%s/out" % prop
     for k in sorted(os.listdir(src)):
         d = os.path.join(SEED, "%s-%s" % (prop, k)); os.makedirs(d, exist_ok=True)
-        for f in os.listdir(os.path.join(src, k)): shutil.copy(os.path.join(src, k, f), d)
+        for f in os.listdir(os.path.join(src, k)):
+            sp = os.path.join(src, k, f)
+            if os.path.isdir(sp):
+                shutil.copytree(sp, os.path.join(d, f), dirs_exist_ok=True, ignore=shutil.ignore_patterns("target"))
+            elif os.path.getsize(sp) < 2_000_000: shutil.copy(sp, d)
         print("imported", d)
 def cmd_verify(ids):
     wt, tgt = "/tmp/seedverify_wt", "/tmp/seedverify_target"
